@@ -37,6 +37,19 @@ func (p P) MarshalJSONTo(e *jsontext.Encoder) error {
 	return e.WriteToken(jsontext.EndObject)
 }
 
+// PW wraps P below a pointer to a pointer; the shared values keep their addresses for the life of the process.
+type PW struct {
+	A int
+	X P
+}
+type SK string
+
+var (
+	sharedPW         = &PW{A: 1, X: P{N: 5}}
+	sharedPtrPtr     = &sharedPW
+	sharedAny    any = P{N: 6}
+)
+
 type U struct{ N int }
 
 func (u *U) UnmarshalJSONFrom(d *jsontext.Decoder) error {
@@ -434,6 +447,83 @@ func buildCatalogue() {
 			fw := &failWriter{n: 20}
 			err := json.MarshalWrite(fw, mv.v(), det)
 			return result{"", errClass(err)}
+		})
+	}
+
+	// ---- shared pointers: the encoder's cycle bookkeeping is keyed by (type, address), so only a
+	// value whose pointers keep their address from call to call can meet an entry that an earlier
+	// call left behind.  The values are package-level and read-only; whether user code panics or
+	// fails below the pointer is decided by the OPTIONS of the call (a marshal function for P).
+	panicky := json.WithMarshalers(json.MarshalToFunc(func(e *jsontext.Encoder, p P) error { panic(run.UserPanic{Tag: "marshal-func"}) }))
+	failing := json.WithMarshalers(json.MarshalToFunc(func(e *jsontext.Encoder, p P) error { return errors.New("user func error") }))
+	type sopt struct {
+		name string
+		o    []json.Options
+	}
+	for _, sv := range []struct {
+		name string
+		v    any
+	}{
+		{"ptrptr", struct{ F **PW }{sharedPtrPtr}},
+		{"ptrany", struct{ F *any }{&sharedAny}},
+		{"ptrptr-in-slice", []**PW{sharedPtrPtr, sharedPtrPtr}},
+		{"ptr-to-iface-in-map", map[string]*any{"k": &sharedAny}},
+	} {
+		for _, so := range []sopt{{"det", []json.Options{det}}, {"panicking-func", []json.Options{det, panicky}}, {"failing-func", []json.Options{det, failing}}} {
+			sv, so := sv, so
+			add("marshal/shared-"+sv.name+"/"+so.name+"/Marshal", "Marshal", false, false, func(keep func(string, func() []byte)) result {
+				b, err := json.Marshal(sv.v, so.o...)
+				return result{string(b), errClass(err)}
+			})
+			add("marshal/shared-"+sv.name+"/"+so.name+"/MarshalWrite", "MarshalWrite-bb", false, false, func(keep func(string, func() []byte)) result {
+				var bb bytes.Buffer
+				if err := json.MarshalWrite(&bb, sv.v, so.o...); err != nil {
+					return result{"", errClass(err)}
+				}
+				return result{bb.String(), ""}
+			})
+		}
+	}
+	// ---- Deterministic over keys whose emitted names tie: different Go keys that read as the same text once
+	// each ill-formed byte is U+FFFD; the order of the VALUES must still not depend on the iteration order
+	tieOpts := []json.Options{det, jsontext.AllowInvalidUTF8(true), jsontext.AllowDuplicateNames(true)}
+	for _, tv := range []struct {
+		name string
+		v    func() any
+	}{
+		{"string-keys", func() any {
+			m := map[string]int{}
+			for i := 0; i < 6; i++ {
+				m[fmt.Sprintf("id%d\xff", i)], m[fmt.Sprintf("id%d\xfe", i)], m[fmt.Sprintf("id%d\xc3", i)] = 3*i, 3*i+1, 3*i+2
+			}
+			return m
+		}},
+		{"named-string-keys", func() any {
+			m := map[SK]int{}
+			for i := 0; i < 6; i++ {
+				m[SK(fmt.Sprintf("id%d\xff", i))], m[SK(fmt.Sprintf("id%d\xfe", i))], m[SK(fmt.Sprintf("id%d\xc3", i))] = 3*i, 3*i+1, 3*i+2
+			}
+			return m
+		}},
+		{"named-string-keys-in-any", func() any {
+			m := map[SK]string{}
+			for i := 0; i < 6; i++ {
+				m[SK(fmt.Sprintf("\xff%d", i))], m[SK(fmt.Sprintf("\xfe%d", i))] = "a", "b"
+			}
+			return []any{m, map[string]any{"k": m}}
+		}},
+		{"text-keys", func() any {
+			m := map[TX]int{}
+			for i := 0; i < 6; i++ {
+				m[TX(fmt.Sprintf("t%d\xff", i))], m[TX(fmt.Sprintf("t%d\xfe", i))] = 2*i, 2*i+1
+			}
+			return m
+		}},
+	} {
+		tv := tv
+		add("marshal/tied-"+tv.name+"/det+invalidutf8+dup/Marshal", "Marshal", false, false, func(keep func(string, func() []byte)) result {
+			b, err := json.Marshal(tv.v(), tieOpts...)
+			return result{string(b), errClass(err)}
 		})
 	}
 
